@@ -161,6 +161,10 @@ def random_scenarios(c, n, tr):
                 if small and rng.random() < 0.25:       # batches that make in-flight + b land exactly around 2^32 or around N
                     b = rng.choice([M32 + 1 - k for k in (1, 2, 3)] + [max(0, value(rng.choice(small)['N']) - k) for k in (0, 1, 2)])
                 o = dict(op='req', res=rng.choice([1, 1, 1, 2]), b=limbs(b), id=rid)
+                if rng.random() < 0.3:
+                    o['rt'] = rng.choice([0, 1, 2, 3, 4])       # the same resource entered with different resource types / traffic types
+                if rng.random() < 0.2:
+                    o['inb'] = True
                 pending.append(rid)
             else:
                 o = dict(op='exit', id=pending.pop(rng.randrange(len(pending))))
